@@ -89,7 +89,9 @@ def run_keep(case) -> None:
     ex.before_measure_hook = before_measure
     kw: Dict[str, Any] = {}
     role = "create" if variant == "create_keep" else "recv"
-    api = {"recv_keep_seq": "recv_keep"}.get(variant, variant)
+    api = {"recv_keep_seq": "recv_keep", "recv_keep_seq1": "recv_keep", "recv_keep_with_info_seq1": "recv_keep_with_info"}.get(variant, variant)
+    if variant.endswith("_seq1"):
+        kw["sequential"] = True  # one pair, handled pair by pair, but nothing registered to handle it
     if role == "recv":
         kw["expect_phi_plus"] = expect
     outcomes = None
@@ -317,6 +319,13 @@ def keep_cases(max_pairs: int, ctx_open) -> List[Dict[str, Any]]:
                             if variant in ("recv_keep", "recv_keep_seq") and others == 0:
                                 # the same scenario with the responses arriving as qlink-interface 1.0 objects
                                 cases.append({"kind": "keep", "bells": list(bells), "variant": variant, "hardware": hardware, "others": others, "expect": expect, "wire": "qlink10"})
+    # sequential mode for a single pair without a post routine (legal: the caller handles the qubit afterwards)
+    for hardware in ("generic", "nv", "generic1"):
+        for b in range(4):
+            for variant in ("recv_keep_seq1", "recv_keep_with_info_seq1"):
+                for others in (0, 1):
+                    for expect in (True, False):
+                        cases.append({"kind": "keep", "bells": [b], "variant": variant, "hardware": hardware, "others": others if hardware != "generic1" else 0, "expect": expect})
     # single-communication-qubit devices that are not NV (one pair)
     for hardware in ("generic1", "custom1"):
         for b in range(4):
